@@ -410,7 +410,8 @@ func (t *treeRun) lifecycleCheck(final bool) {
 		if !done && want && final {
 			detsim.Fail("shutdown-not-cascaded", "%s is still running although it or an ancestor was shut down\n%s", n.Name(), dumpLive())
 		}
-		if final && done && n.Sub != nil && n.Mon == nil && (n.Reader == "eager" || n.Reader == "slow") && !n.SawClose {
+		// (a slow reader may be asleep between two reads while the clock is held for the final checks)
+		if final && done && n.Sub != nil && n.Mon == nil && (n.Reader == "eager" || n.Reader == "slow" && n.SlowEvery <= 0) && !n.SawClose {
 			detsim.Fail("events-not-closed", "%s is done but its reader never saw the Events() channel closed", n.Name())
 		}
 	}
